@@ -1055,7 +1055,8 @@ class RotationGate(Gate):
     """
 
     def __init__(self, ntheta: Sequence[float], qubit: Qubit = None):
-        self.ntheta = np.asarray(ntheta)
+        # own copy, such that later in-place changes of the caller's array do not alter the gate
+        self.ntheta = np.array(ntheta)
         if self.ntheta.shape != (3,):
             raise ValueError("'ntheta' must be a vector of length 3")
         self.qubit = qubit
